@@ -4,6 +4,7 @@ import (
 	"fmt"
 	"go/token"
 	"go/types"
+	"sort"
 	"strings"
 
 	"golang.org/x/tools/go/ssa"
@@ -28,12 +29,15 @@ func init() {
 			{ID: "R03f", Floor: 2, Doc: "the insertion index never replaces an entry (its ordering is by digest only): Load/InsertNoReplace use llrb.InsertNoReplace", Run: ruleR03f},
 			{ID: "R03i", Floor: 3, Doc: "compact bucket layout: every reader slices record i as digest = index[i*w : i*w+w-8], offset = index[i*w+w-8 : i*w+w], the layout the writer produces (digest then 8-byte offset in a slot of w = len(digest)+8); the search predicate compares the key with the record's digest using <= 0 over ascending buckets", Run: ruleR03i},
 			{ID: "R03j", Floor: 4, Doc: "cursor discipline of the positioned readers/writers of internal/io: the cursor field is advanced by exactly the byte count the wrapped ReadAt/Read/WriteAt returned, on every path that returns a count that may be non-zero (an io.Reader may return n > 0 together with an error)", Run: ruleR03j},
+			{ID: "R03o", Floor: 4, Doc: "the reader adapters of internal/io are the audited ones: ToByteReader, ToByteReadSeeker, ToReadSeeker and ToReaderAt return their argument or one of the adapter types of the pinned tree (whose byte accounting R03d/R03j check); an adapter type added beside them reads bytes that nothing counts or bounds", Run: ruleR03o},
+			{ID: "R03p", Floor: 1, Doc: "index generation runs under the options the caller gave: no function overrides StoreIdentityCIDs (or any option) for itself, so which sections get a record is decided by the caller alone (= R04j)", Run: ruleR04j},
 			{ID: "R03g", Floor: 1, Doc: "InsertionIndex.GetAll offers every record with the key's digest", Run: ruleR03g},
 			{ID: "R03h", Floor: 1, Doc: "records loaded into the index once, after the scan", Run: ruleR03h},
 			{ID: "R03d", Floor: 2, Doc: "discardingReadSeekerPlusByte: every byte source (ReadByte, Seek's discard) reads through the counting Read, which adds exactly the returned count", Run: ruleR03d},
 			{ID: "R03k", Floor: 1, Doc: "the CARv2 header the offsets are re-based by is parsed exactly (full read, range checks before use) (= R09e)", Run: ruleR09e},
 			{ID: "R03l", Floor: 2 + 3, Doc: "index generation is run with the options the caller gave (forwarded to every option-taking callee) (= R07c)", Run: ruleR07c},
 			{ID: "R03m", Floor: 5, Doc: "the CLI's own section walk (`car index`) records the offset of every section it copies (= R19d)", Run: ruleR19d},
+			{ID: "R03n", Floor: 1, Doc: "the sorted index files records under the whole decoded digest (= R11l)", Run: ruleR11l},
 		},
 	})
 }
@@ -498,7 +502,21 @@ func ruleR03c(c *Ctx, r *Report) {
 			return
 		}
 	}
-	r.Hold("cidsize-gate@v2.LoadIndex", pos, "append behind cidLen <= MaxIndexCidSize")
+	// the limit concerns index records only: a section that is not going to be indexed (an identity
+	// CID with StoreIdentityCIDs off) is never refused for its CID size
+	if len(optOn) > 0 && len(notIdentity) > 0 {
+		tooLarge := opposite(sizeOK[0])
+		_ = tooLarge
+		gateCut := edgeSet(optOn, notIdentity)
+		rs := reach(fn, nil, gateCut)
+		for _, e := range sizeOK {
+			if rs[e.From] {
+				r.Viol("cidsize-gate@v2.LoadIndex", c.Pos(fn.Pos()), "the CID-size limit is tested for sections that will not be indexed: a valid archive holding a large inline (identity) block cannot be indexed or wrapped under default options, although no record would be written for that block")
+				return
+			}
+		}
+	}
+	r.Hold("cidsize-gate@v2.LoadIndex", pos, "append behind cidLen <= MaxIndexCidSize; the limit is only applied to sections that are indexed")
 }
 
 // ruleR03d: the non-seekable adapter must count all bytes.
@@ -1039,5 +1057,43 @@ func ruleR03j(c *Ctx, r *Report) {
 			}
 		}
 		r.Check(bad == "", key, c.Pos(fn.Pos()), t.field+" += n on every path that returns n", bad)
+	}
+}
+
+func ruleR03o(c *Ctx, r *Report) {
+	want := map[string]map[string]bool{
+		"ToByteReader":     {"readerPlusByte": true},
+		"ToByteReadSeeker": {"readSeekerPlusByte": true, "discardingReadSeekerPlusByte": true},
+		"ToReadSeeker":     {"readerAtSeeker": true},
+		"ToReaderAt":       {"readSeekerAt": true},
+	}
+	for _, name := range []string{"ToByteReader", "ToByteReadSeeker", "ToReadSeeker", "ToReaderAt"} {
+		fn, err := c.Func(pkgIntIO, "", name)
+		if err != nil {
+			r.InfraFail("%v", err)
+			continue
+		}
+		key := "adapter-set@" + fnKey(fn)
+		var bad []string
+		n := 0
+		for _, t := range concreteReturns(c, fn, 0, 0) {
+			nt := namedOf(t)
+			if nt == nil {
+				continue // the argument itself, asserted to the wanted interface
+			}
+			if nt.Obj().Pkg() == nil || nt.Obj().Pkg().Path() != pkgIntIO {
+				continue
+			}
+			if _, isIface := nt.Underlying().(*types.Interface); isIface {
+				continue
+			}
+			n++
+			if !want[name][nt.Obj().Name()] {
+				bad = append(bad, nt.Obj().Name())
+			}
+		}
+		sort.Strings(bad)
+		r.Check(len(bad) == 0, key, c.Pos(fn.Pos()), fmt.Sprintf("%d adapter type(s), all known", n),
+			"returns the adapter type(s) "+strings.Join(bad, ", ")+", which the pinned tree does not have: its reads are outside the byte accounting (position of a non-seekable source) and the payload bound that the existing adapters are checked for")
 	}
 }
